@@ -333,6 +333,13 @@ class Proxy(Handler):
         if self.wrap2.buf and self.wrap1.shut_write:
             self.wrap2.buf = []
             self.wrap2.noread()
+        # a direction whose writer is shut has nothing left to read; say so
+        # now rather than in the next pre_select(), so that a flow that is
+        # finished is noticed here and not only at some later wakeup.
+        if self.wrap1.shut_write:
+            self.wrap2.noread()
+        if self.wrap2.shut_write:
+            self.wrap1.noread()
         if (self.wrap1.shut_read and self.wrap2.shut_read and
                 not self.wrap1.buf and not self.wrap2.buf):
             self.ok = False
